@@ -118,7 +118,14 @@ func vfhC05Respell() {
 	x, y := appendFloat(nil, p.X), appendFloat(nil, p.Y)
 	u, v := appendFloat(nil, q.X), appendFloat(nil, q.Y)
 	var txt string
-	switch vfInt("spelling", 0, 3) {
+	switch vfInt("spelling", 0, 6) {
+	case 4: // parenthesised member first, bare member second
+		txt = "MULTIPOINT((" + string(x) + " " + string(y) + ")," + string(u) + " " + string(v) + ")"
+	case 5: // bare member first, parenthesised member second
+		txt = "MULTIPOINT(" + string(x) + " " + string(y) + ",(" + string(u) + " " + string(v) + "))"
+	case 6: // the two styles in two MultiPoints of one text
+		txt = "GEOMETRYCOLLECTION(MULTIPOINT((" + string(x) + " " + string(y) + ")),MULTIPOINT(" + string(u) + " " + string(v) + "))"
+		mp = NewGeometryCollection([]Geometry{NewMultiPoint([]Point{NewPoint(p)}).AsGeometry(), NewMultiPoint([]Point{NewPoint(q)}).AsGeometry()}).AsGeometry()
 	case 0:
 		txt = "multipoint((" + string(x) + " " + string(y) + "),(" + string(u) + " " + string(v) + "))"
 	case 1:
